@@ -190,7 +190,74 @@ def r09_4(ctx: Ctx):
               f'{[x for x in map(repr, pa) if x not in set(map(repr, pb))][:1]}', key=f'{rid}::siblings')
 
 
+def r09_6(ctx: Ctx):
+    """Exact equality on a transformed coordinate.  The inverse query first maps the point into the unit cube,
+    (y - (U+L)/2)/(U-L): a boundary point comes out as 0.5 only up to rounding (0.5000000000000001 for about one box
+    in six).  A branch `p == 0.5` (or != / any equality with a literal) on such a value takes the special case for
+    some boxes and misses it for others; the inverse image of a face point then lands in the wrong cell."""
+    rid = 'R09.6'
+    ctx.rule(rid, 'no exact equality test (==, !=) of a value derived from the transformed point with a numeric '
+                  'constant in the code of the inverse queries (expected count: 0; the forward query tests its own '
+                  'argument x == 1.0, which is not transformed)')
+    e = evo.evo_of(ctx)
+    scratch = set(e._scratch_attrs()) if e.opt('fwd', 'descent') is not None else {'yValues'}
+    roots = [e.get_inverse, e.get_pre]
+    funcs = []
+    for r in roots:
+        for f in [r] + e._closure(r):
+            if f not in funcs and f.kind == 'function':
+                funcs.append(f)
+    n = 0
+    for f in funcs:
+        selfn = f.param_names[0] if f.param_names and f.cls is not None else None
+        tainted = set(f.param_names[1:]) if f in roots else set()
+
+        def derived(x) -> bool:
+            if isinstance(x, ast.Attribute) and isinstance(x.value, ast.Name) and x.value.id == selfn and \
+                    x.attr in scratch:
+                return True
+            if isinstance(x, ast.Name):
+                return x.id in tainted
+            if isinstance(x, ast.Call):
+                nm = x.func.id if isinstance(x.func, ast.Name) else getattr(x.func, 'attr', '')
+                if nm in ('int', 'floor', 'trunc', 'round', 'len', 'range'):
+                    return False
+            return any(derived(c) for c in ast.iter_child_nodes(x) if isinstance(c, ast.expr))
+        changed = True
+        while changed:
+            changed = False
+            for st in ast.walk(f.node):
+                if isinstance(st, ast.Assign) and len(st.targets) == 1 and isinstance(st.targets[0], ast.Name) and \
+                        st.targets[0].id not in tainted and derived(st.value):
+                    tainted.add(st.targets[0].id)
+                    changed = True
+        for c in ast.walk(f.node):
+            if not (isinstance(c, ast.Compare) and len(c.ops) == 1 and isinstance(c.ops[0], (ast.Eq, ast.NotEq))):
+                continue
+            l, r = c.left, c.comparators[0]
+            n += 1
+            for a, b in ((l, r), (r, l)):
+                num = isinstance(b, ast.Constant) and isinstance(b.value, (int, float)) and \
+                    not isinstance(b.value, bool)
+                bare_param = isinstance(a, ast.Name) and f in roots and a.id in f.param_names
+                if num and derived(a) and not bare_param:
+                    ctx.fail(rid, f.short, f.loc(c),
+                             f'`{ast.unparse(c)}` tests a value derived from the transformed point for exact equality '
+                             f'with {b.value!r}: the transformed coordinate of a boundary point equals the constant '
+                             f'only up to rounding, so the special case is taken for some boxes and missed for others '
+                             f'and the inverse image of such a point is the left end of a wrong cell',
+                             key=f'{rid}::{f.short}::{ast.unparse(c)[:40]}')
+    if not any(x.rule == rid for x in ctx.findings):
+        ctx.ok(rid, 'inverse queries', f'{n} equality comparisons in {len(funcs)} functions of the inverse queries: none '
+                                       f'on a value derived from the transformed point', e.cls.module.relpath)
+    ctx.floor(rid, 'functions of the inverse queries scanned', len(funcs), 3)
+
+
 def check(ctx: Ctx):
+    if C.want(ctx, 'R09.6'):
+        r09_6(ctx)
+    if C.want(ctx, 'R09.5'):
+        evo.rule_no_shared_state(ctx, 'R09.5')
     if C.want(ctx, 'R09.1'):
         r09_1(ctx)
     if C.want(ctx, 'R09.2'):
